@@ -13,6 +13,7 @@ from .term import T
 Z3_TIMEOUT_MS = int(os.environ.get("SKV_Z3_MS", "20000"))
 CVC5_TIMEOUT_MS = int(os.environ.get("SKV_CVC5_MS", "30000"))
 CVC5_BIN = "/usr/bin/cvc5"
+Z3_FIRST_MS = int(os.environ.get("SKV_Z3_FIRST_MS", "4000"))
 
 
 class Result:
@@ -134,16 +135,20 @@ def prove(hyps, goal: T, use_cvc5="fallback", timeout_ms=None) -> Result:
     if goal is tm.TRUE:
         return Result("proved", "simplifier", 0.0)
     smt, vs = build_smt2(hyps, goal)
-    r = z3_check(smt, vs, timeout_ms)
     if use_cvc5 == "never":
-        return r
-    if r.status == "unknown" and use_cvc5 in ("fallback", "both"):
+        return z3_check(smt, vs, timeout_ms)
+    # staged: z3 short, cvc5, z3 long (a slow query on one solver is usually fast on the other)
+    r = z3_check(smt, vs, min(Z3_FIRST_MS, timeout_ms or Z3_TIMEOUT_MS))
+    if r.status == "unknown":
         r2 = cvc5_check(smt, vs)
         if r2.status != "unknown":
             r2.time_s += r.time_s
             return r2
-        r.detail += " | cvc5: " + r2.detail
-        return r
+        r3 = z3_check(smt, vs, timeout_ms)
+        r3.time_s += r.time_s + r2.time_s
+        if r3.status == "unknown":
+            r3.detail += " | cvc5: " + r2.detail
+        return r3
     if use_cvc5 == "both" and r.status == "proved":
         r2 = cvc5_check(smt, vs)
         if r2.status == "refuted":
